@@ -209,9 +209,9 @@ func mkHandleInstance(sc *Scenario) (*explorer.Instance, *runState) {
 				return true
 			}
 			if sc.Pipeline {
-				// the whole program is written at once; the replies are awaited one by one.  A connection's
-				// commands are executed in order, so for the oracle command i+1 is invoked when the reply
-				// to command i has arrived (or when the bytes were written, whichever is later)
+				// the whole program is written at once; the replies are awaited one by one.  Every command is
+				// invoked when the bytes are written; a connection's commands take effect in the order they
+				// were written (lin.Op.After), not necessarily after the client has seen the previous reply
 				var recs []*opRec
 				var stream []byte
 				for _, c := range prog {
@@ -227,8 +227,8 @@ func mkHandleInstance(sc *Scenario) (*explorer.Instance, *runState) {
 				}
 				conn.Send(stream)
 				for i, r := range recs {
-					if i > 0 && recs[i-1].Ret > r.Call {
-						r.Call = recs[i-1].Ret
+					if i > 0 {
+						r.After = recs[i-1]
 					}
 					if !await(r, r.Args) {
 						return
@@ -381,12 +381,19 @@ func checkHandle(sc *Scenario, rs *runState, out *explorer.Outcome) []cviol {
 	// replies: linearizable against databases + per-connection selection; some linearization must
 	// end in the observed databases
 	var ops []lin.Op
+	linIndex := map[*opRec]int{}
 	for _, o := range rs.ops {
 		name := strings.ToLower(o.Args[0])
 		if name == "subscribe" || name == "publish" || name == "@eof" {
 			continue
 		}
 		op := lin.Op{Thread: o.Thread, Call: o.Call, Ret: o.Ret, Pending: !o.Done, In: hIn{Conn: hs.nConn[sc.Conns[o.Thread]], Args: h.B(o.Args...)}}
+		if o.After != nil {
+			if j, ok := linIndex[o.After]; ok {
+				op.After = j + 1
+			}
+		}
+		linIndex[o] = len(ops)
 		if o.Done {
 			v, err := model.DecodeOne(o.Reply)
 			if err != nil {
